@@ -300,6 +300,11 @@ func Parse(r io.Reader, root string) (*Trace, error) {
 		}
 	}
 	for tid, txt := range p.pending {
+		if strings.HasPrefix(strings.TrimSpace(txt), "???") {
+			// strace could not name the call a thread was in when the process exited (a runtime
+			// thread parked in the kernel): a traced file operation is always printed by name
+			continue
+		}
 		if len(txt) > 80 {
 			txt = txt[:80]
 		}
